@@ -655,6 +655,7 @@ func (g *Gen) QuickQueries() (depth1, depth2 []*Q) {
 		}
 	}
 	depth1 = append(depth1, ib...)
+	depth2 = append(depth2, g.Twins()...)
 	for _, src := range iu {
 		depth2 = append(depth2, g.Unary(src, 0)...)
 	}
@@ -668,4 +669,35 @@ func (g *Gen) QuickQueries() (depth1, depth2 []*Q) {
 		}
 	}
 	return
+}
+
+// Twins are binary operators with a where or extend on both sides over the
+// tables with equal columns (t1, t4): fixed values on both sides, which is
+// what the "disjoint" proofs of union / intersect / minus and the fixed
+// propagation of joins work from.
+func (g *Gen) Twins() []*Q {
+	var out []*Q
+	side := func(t string) []*Q {
+		src := Table(t)
+		return []*Q{
+			Where(src, Bin("is", Col("a"), Con(vi(2)))),
+			Where(src, Bin("is", Col("a"), Con(vi(1)))),
+			Where(src, In(Col("a"), vi(1), vi(2), vi(30))),
+			Where(src, In(Col("a"), vi(2), vi(3))),
+			Where(src, Bin("is", Col("b"), Con(vs("x")))),
+			Where(src, Bin("is", Col("b"), Con(vs("")))),
+			Extend(src, []string{"x"}, []*E{Con(vi(1))}),
+			Extend(src, []string{"x"}, []*E{Con(vi(2))}),
+			Extend(src, []string{"x"}, []*E{Con(vs(""))}),
+			Extend(src, []string{"x"}, []*E{Col("c")}),
+		}
+	}
+	for _, pair := range [][2]string{{"t1", "t4"}, {"t1", "t1"}, {"t4", "t1"}} {
+		for _, x := range side(pair[0]) {
+			for _, y := range side(pair[1]) {
+				out = append(out, g.Binaries(x, y)...)
+			}
+		}
+	}
+	return out
 }
